@@ -91,6 +91,7 @@ FIXED_CONTEXTS = [
     ("class A({H}): pass\n", "exec"), ("class A(metaclass={H}): pass\n", "exec"), ("print({H}, *{H2})\n", "exec"), ("async def g():\n    await {H}\n", "exec"),
     ("match {H}:\n    case 1: pass\n", "exec"), ("match a:\n    case 1 if {H}: pass\n", "exec"), ("x = y = {H}\n", "exec"), ("x += {H}\n", "exec"), ("x: int = {H}\n", "exec"),
     ("(w := {H})\n", "exec"), ("{H}", "eval"), ("({H})", "eval"), ("f({H}, {H2})", "eval"), ("[{H}]", "eval"), ("{H}.a.b", "eval"), ("a @ {H}", "eval"), ("a if {H} else b", "eval"),
+    ("f({H},\n 1)\n", "exec"), ("a = [{H},\n {H2},\n 3]\n", "exec"), ("b = (p and\n {H} and\n q)\n", "exec"), ("c = {{{H}:\n 1,\n 2: {H2}}}\n", "exec"), ("g(\n{H}\n)\n", "exec"), ("d = f'a{{{H}!r:>10}}b'\n", "exec"),
     ("x = {H}\ny = 'plain'\n", "exec"), ("f({H}, 'plain', \"q\")\n", "exec"), ("a = [{H}, 'p', {H2}, 's']\n", "exec"), ("x = {H}; y = 'after' 'more'\n", "exec"),
     ("x = f'{{{H}}}'\n", "exec"), ("x = f'{{{H}!r:>10}}'\n", "exec"), ("try:\n    pass\nexcept {H}:\n    pass\n", "exec"), ("global_ = {H}; y = {H2}\n", "exec"), ("del a[{H}]\n" if False else "a[{H}]\n", "exec"),
 ]
@@ -185,8 +186,8 @@ def build_inputs(tier):
             cases.append(("later-string", ctx, "exec", [f, stringish[-2]][: 2 if "{H2}" in ctx else 1]))
     # binding targets with Store context
     for tctx in ["{H} = 1\n", "for {H} in y: pass\n", "with a as {H}: pass\n", "[i for {H} in y]\n", "{H}, b = 1, 2\n", "for a, {H} in y: pass\n", "[{H}, *c] = y\n", "with a as ({H}, b): pass\n", "{H} = b = 3\n", "({H}) = 2\n", "for ({H}) in xs: pass\n", "with f as ({H}): pass\n", "[0 for ({H}) in xs]\n", "[{H}] = y\n", "({H}, b) = y\n", "*{H}, b = y\n" if False else "a, ({H}) = y\n"]:
-        for name in ["$X", "${'a'+b}", "${n}", "$HOME"]:
-            t = "__xonsh__.env['%s']" % name[1:] if name[1] != "{" else "__xonsh__.env[str(%s)]" % name[2:-1]
+        for name in ["$X", "${'a'+b}", "${n}", "$HOME", "${'X'}", "${'A' 'B'}", "${ n\n}"]:
+            t = "__xonsh__.env['%s']" % name[1:] if name[1] != "{" else "__xonsh__.env[str(%s)]" % name[2:-1].strip()
             cases.append(("target", tctx, "exec", [("target", name, t, "primary")]))
     return cases
 
